@@ -2,8 +2,9 @@
 # all seeds against their checks
 cd /verif
 for d in $(ls seeded | sort); do
-  p=$(echo $d | sed 's/r2$//; s/b$//')
+  p=$(echo $d | sed -E 's/r[0-9]+$//; s/b$//')
   [ "$d" = "C06r2" ] && p=C23
+  [ "$d" = "C28r3" ] && p=C29
   if grep -q obsolete seeded/$d/meta.json 2>/dev/null; then echo "$d obsolete"; continue; fi
   out=$(bash lib/seedtest.sh /verif/seeded/$d $p 2>&1)
   if echo "$out" | grep -q "^VIOLATION"; then echo "$d -> $p CAUGHT :: $(echo "$out" | grep 'violation:' | head -1 | cut -c1-150)"; else echo "$d -> $p MISSED :: $(echo "$out" | tail -1 | cut -c1-200)"; fi
